@@ -92,6 +92,17 @@ fn env_program(rng: &mut Rng, k: u64) -> (Program, Vec<(String, Ty)>) {
 
 pub fn run(cx: &mut Ctx) {
     let envs = envs();
+    // corpus regression inputs (programs with a witness file), shard 0
+    if cx.shard == 0 && cx.only_case.is_none() {
+        for (name, text, wv) in corpus_with_witness() {
+            for debug in [false, true] {
+                let Ok(built) = build(&text, &simfony::Arguments::default(), debug) else { continue };
+                let Outcome::Ok(unpruned) = satisfy(&built.compiled, &wv, None) else { continue };
+                judge_envs(cx, &text, &built, &wv, &unpruned, json!(name), &envs, &format!("corpus {name} {debug}"), false);
+                cx.report.count("corpus_inputs", 1);
+            }
+        }
+    }
     let n: u64 = if cx.thorough { 20_000 } else { 700 };
     for i in cx.cases(n) {
         if cx.out_of_time() {
@@ -99,10 +110,50 @@ pub fn run(cx: &mut Ctx) {
         }
         cx.begin_case(i);
         let mut rng = cx.rng(&[i]);
-        let (text, ws): (String, Vec<(String, Ty)>) = if i % 2 == 0 {
+        let small_domain = i % 2 == 0;
+        let mut fixed_primary: Option<WMap> = None;
+        let (text, ws): (String, Vec<(String, Ty)>) = if small_domain {
             let (mut prog, ws) = env_program(&mut rng, i / 2);
             prog.number_calls();
             (render_plain(&prog), ws)
+        } else if i % 4 == 3 {
+            // one witness value read in two branches that inspect different parts of it; the
+            // branch not taken is hidden by pruning, which narrows the type of the shared value
+            let d = 1 + rng.below(2);
+            let t = random_ty(&mut rng, d, 8);
+            let ws = vec![("W".to_string(), t.clone()), ("FLAG".to_string(), Ty::Bool)];
+            let mut g = prober(cx, false);
+            let mut arms = vec![];
+            for skip in [0usize, 55] {
+                g.probe_skip_pct = skip;
+                let mut body = vec![];
+                g.probe(&Expr::var("w"), &t, &mut body, 0);
+                arms.push(Expr::block(body, None));
+            }
+            let holes = g.prog.holes.clone();
+            drop(g);
+            let second = arms.pop().unwrap();
+            let first = arms.pop().unwrap();
+            let stmts = vec![
+                let_("w", t.clone(), Expr::Witness("W".into())),
+                Stmt::Expr(Expr::Match(
+                    Box::new(Expr::Witness("FLAG".into())),
+                    Box::new([Arm { pat: MatchPat::False, body: second }, Arm { pat: MatchPat::True, body: first }]),
+                )),
+            ];
+            let prog = Program { items: vec![main_fn(stmts)], holes };
+            let mut primary = WMap::new();
+            primary.insert("W".to_string(), random_val(&t, &mut rng));
+            primary.insert("FLAG".to_string(), Val::Bool(rng.chance(1, 4)));
+            cx.report.count("shared_witness_programs", 1);
+            fixed_primary = Some(primary.clone());
+            match prepared_from(cx, prog, ws.clone(), vec![], primary, WMap::new(), &Style::plain()) {
+                Ok(p) => (p.text().to_string(), ws),
+                Err(e) => {
+                    cx.report.harness_error(json!({"what": e}));
+                    continue;
+                }
+            }
         } else {
             let mut cfg = GenCfg::default();
             cfg.size_budget = 60;
@@ -127,7 +178,7 @@ pub fn run(cx: &mut Ctx) {
             let mut m: WMap = ws
                 .iter()
                 .map(|(n, t)| {
-                    let v = if i % 2 == 0 {
+                    let v = if small_domain {
                         // small domain around the asserted constants
                         Val::u(8, *rng.pick(&[7u128, 1, 0]))
                     } else if k == 0 {
@@ -138,6 +189,10 @@ pub fn run(cx: &mut Ctx) {
                     (n.clone(), v)
                 })
                 .collect();
+            // the probe constants of the shared-witness family fit its primary assignment
+            if let (Some(pm), true) = (&fixed_primary, k <= 1) {
+                m = pm.clone();
+            }
             // maps that leave names out are legal too (the library zero-fills them)
             if k == 3 {
                 m.clear();
@@ -159,59 +214,67 @@ pub fn run(cx: &mut Ctx) {
                     continue;
                 }
             };
-            for (ename, env) in &envs {
-                cx.report.evaluations += 1;
-                let sig = format!("prune:{:016x}:{ename}", fnv64(text.as_bytes()));
-                let base = match exec_redeem(unpruned.redeem(), env) {
-                    Outcome::Ok(r) => r.is_ok(),
-                    o => {
-                        cx.report.inconclusive(json!({"why": format!("unpruned execution did not return (C02's subject): {}", o.brief()), "program": text}));
-                        continue;
-                    }
-                };
-                let pruned = satisfy(&built.compiled, &wv, Some(env));
-                let mut problems = vec![];
-                match &pruned {
-                    Outcome::Ok(sat) => {
-                        if !base {
-                            problems.push("satisfy_with_env returned a program although the unpruned program fails under env".to_string());
-                        }
-                        let (m6, _) = m6_check(sat.redeem(), &built.commit.cmr);
-                        problems.extend(m6);
-                        let (pb, wb) = sat.redeem().encode_to_vec();
-                        match decode_redeem(&pb, &wb) {
-                            Outcome::Ok(d) => {
-                                if cmr_bytes(d.cmr()) != built.commit.cmr {
-                                    problems.push("decoded pruned program has another CMR".into());
-                                }
-                                match exec_redeem(&d, env) {
-                                    Outcome::Ok(Ok(())) => {}
-                                    o => problems.push(format!("the pruned program does not succeed under env: {}", o.brief())),
-                                }
-                            }
-                            o => problems.push(format!("the pruned program's encoding does not decode: {}", o.map(|_| ()).brief())),
-                        }
-                        cx.report.count("pruned_ok", 1);
-                    }
-                    Outcome::Err(_) => {
-                        if base {
-                            problems.push("satisfy_with_env failed although the unpruned program succeeds under env".to_string());
-                        }
-                        cx.report.count("pruned_err", 1);
-                    }
-                    Outcome::Panic(p) => problems.push(format!("satisfy_with_env panicked: {} @ {}", p.message, p.location)),
-                }
-                if problems.is_empty() {
-                    cx.report.nontrivial.insert(fnv64(format!("{text}|{k}|{ename}").as_bytes()));
-                    cx.report.note("envs", ename);
-                } else {
-                    cx.report.violation(json!({"kind": "prune", "what": problems.join("; "), "program": text, "witness": wmap_json(&m, &ws),
-                        "env": ename, "unpruned_succeeds": base, "signature": sig}));
-                }
-                if cx.report.samples.len() < 2 && i % 2 == 0 && k == 0 {
-                    cx.report.sample(json!({"program": text, "env": ename, "unpruned_succeeds": base, "pruned": pruned.as_ref().map(|_| ()).brief()}));
-                }
+            judge_envs(cx, &text, &built, &wv, &unpruned, wmap_json(&m, &ws), &envs, &format!("{k}"), i % 2 == 0 && k == 0);
+        }
+    }
+}
+
+/// One (program, witness map): for every environment, what `satisfy_with_env` returns against
+/// the unpruned program run under that environment.
+#[allow(clippy::too_many_arguments)]
+fn judge_envs(cx: &mut Ctx, text: &str, built: &Compiled, wv: &simfony::WitnessValues, unpruned: &simfony::SatisfiedProgram, wjson: serde_json::Value,
+    envs: &[(String, Env)], label: &str, sample: bool) {
+    for (ename, env) in envs {
+        cx.report.evaluations += 1;
+        let sig = format!("prune:{:016x}:{ename}", fnv64(text.as_bytes()));
+        let base = match exec_redeem(unpruned.redeem(), env) {
+            Outcome::Ok(r) => r.is_ok(),
+            o => {
+                cx.report.inconclusive(json!({"why": format!("unpruned execution did not return (C02's subject): {}", o.brief()), "program": text}));
+                continue;
             }
+        };
+        let pruned = satisfy(&built.compiled, &wv, Some(env));
+        let mut problems = vec![];
+        match &pruned {
+            Outcome::Ok(sat) => {
+                if !base {
+                    problems.push("satisfy_with_env returned a program although the unpruned program fails under env".to_string());
+                }
+                let (m6, _) = m6_check(sat.redeem(), &built.commit.cmr);
+                problems.extend(m6);
+                let (pb, wb) = sat.redeem().encode_to_vec();
+                match decode_redeem(&pb, &wb) {
+                    Outcome::Ok(d) => {
+                        if cmr_bytes(d.cmr()) != built.commit.cmr {
+                            problems.push("decoded pruned program has another CMR".into());
+                        }
+                        match exec_redeem(&d, env) {
+                            Outcome::Ok(Ok(())) => {}
+                            o => problems.push(format!("the pruned program does not succeed under env: {}", o.brief())),
+                        }
+                    }
+                    o => problems.push(format!("the pruned program's encoding does not decode: {}", o.map(|_| ()).brief())),
+                }
+                cx.report.count("pruned_ok", 1);
+            }
+            Outcome::Err(_) => {
+                if base {
+                    problems.push("satisfy_with_env failed although the unpruned program succeeds under env".to_string());
+                }
+                cx.report.count("pruned_err", 1);
+            }
+            Outcome::Panic(p) => problems.push(format!("satisfy_with_env panicked: {} @ {}", p.message, p.location)),
+        }
+        if problems.is_empty() {
+            cx.report.nontrivial.insert(fnv64(format!("{text}|{label}|{ename}").as_bytes()));
+            cx.report.note("envs", ename);
+        } else {
+            cx.report.violation(json!({"kind": "prune", "what": problems.join("; "), "program": text, "witness": wjson.clone(),
+                "env": ename, "unpruned_succeeds": base, "signature": sig}));
+        }
+        if cx.report.samples.len() < 2 && sample {
+            cx.report.sample(json!({"program": text, "env": ename, "unpruned_succeeds": base, "pruned": pruned.as_ref().map(|_| ()).brief()}));
         }
     }
 }
